@@ -1,6 +1,11 @@
 import DinoProofs.Lemmas.SH
 import DinoProofs.Lemmas.Fx
+import DinoProofs.Lemmas.SHCert
+import DinoProofs.Lemmas.SHFast
+import DinoProofs.Lemmas.Legendre
 import Dino.SHCheck
+import DinoGen.SHCert
+import Mathlib.Analysis.Real.Pi.Bounds
 import Mathlib.Algebra.Order.BigOperators.Group.Finset
 import Mathlib.Algebra.Order.BigOperators.Ring.Finset
 
@@ -156,5 +161,403 @@ theorem roundtrip_of_cert (b : Basis Fx) (mask : List (List Bool)) (N R J L : Na
   exact roundtrip_bound (mapB b) N R J L hb (Fx.val eps) x hx
     (fun r' l' => (mask.getD r' []).getD l' false = true) hsupp
     (gramCheck_sound b mask N R J L eps hN hw hc) r l hr hl
+
+/-! ## certificates in the integer-scaled form (`Dino/SHCheck2.lean`, `DinoGen/SHCert*.lean`) -/
+
+/-- **C01 main theorem, certificate form.**  A kernel-checked separable Gram certificate for the
+ basis arrays of a live grid implies: for every rational spectral field supported on the resolved
+ block, `transform (inverse_transform x)` returns `x` up to `2^-k·‖x‖₁` in *every* coefficient
+ (inside and outside the mask, padding rows included). -/
+theorem roundtrip_of_icert (c : ICert) (mask : List (List Bool)) (k : Nat)
+    (hs : c.shapeOk = true) (hg : c.gramOk mask k = true)
+    (x : List (List ℚ)) (hx : ∀ row ∈ x, row.length ≤ c.L)
+    (hsupp : ∀ r' l', (mask.getD r' []).getD l' false ≠ true → ent2 x r' l' = 0)
+    (r l : Nat) (hr : r < c.R) (hl : l < c.L) :
+    |ent2 (realAnalysis c.ratBasis c.R c.J c.L (realSynth c.ratBasis c.J x)) r l - ent2 x r l|
+      ≤ 1 / 2 ^ k * ∑ r' ∈ range c.R, ∑ l' ∈ range c.L, |ent2 x r' l'| :=
+  roundtrip_bound c.ratBasis c.N c.R c.J c.L c.ratBasis_shaped (1 / 2 ^ k) x hx
+    (fun r' l' => (mask.getD r' []).getD l' false = true) hsupp
+    (c.gramOk_sound mask k hs hg) r l hr hl
+
+/-- the same for the `FastSphericalHarmonics` code path (`_unstack_m`, one table per `|m|`,
+ `_stack_m`), on the basis as that class stores it -/
+theorem roundtrip_fast_of_icert (c : ICert) (mask : List (List Bool)) (k : Nat)
+    (hp : c.pdiv = 2) (hR : c.R % 2 = 0)
+    (hs : c.shapeOk = true) (hg : c.gramOk mask k = true)
+    (x : List (List ℚ)) (hxl : x.length % 2 = 0) (hx : ∀ row ∈ x, row.length ≤ c.L)
+    (hsupp : ∀ r' l', (mask.getD r' []).getD l' false ≠ true → ent2 x r' l' = 0)
+    (r l : Nat) (hr : r < c.R) (hl : l < c.L) :
+    |ent2 (fastAnalysis c.rawBasis c.R c.J c.L (fastSynth c.rawBasis c.J x)) r l - ent2 x r l|
+      ≤ 1 / 2 ^ k * ∑ r' ∈ range c.R, ∑ l' ∈ range c.L, |ent2 x r' l'| := by
+  rw [fastSynth_eq_real _ _ _ hxl, fastAnalysis_eq_real _ _ _ _ _ hR, ← c.ratBasis_eq_fast hp hR]
+  exact roundtrip_of_icert c mask k hs hg x hx hsupp r l hr hl
+
+/-! ## T1.1 for the fast layout, T1.3, T1.4, T1.6 (all sizes) -/
+
+/-- **T1.1 (fast layout)** -/
+theorem roundtrip_fast_eq_gram {K : Type} [CommRing K] (b : Basis K) (N R J L : Nat)
+    (hb : Shaped (fastBasis b) N R J L) (hR : R % 2 = 0) (x : List (List K))
+    (hxl : x.length % 2 = 0) (hx : ∀ row ∈ x, row.length ≤ L) (r l : Nat) (hr : r < R) :
+    ent2 (fastAnalysis b R J L (fastSynth b J x)) r l
+      = ∑ r' ∈ range R, ∑ l' ∈ range L,
+          fGram (fastBasis b) N r r' * lGram (fastBasis b) J r r' l l' * ent2 x r' l' :=
+  ent2_roundtrip_fast b N R J L hb hR x hxl hx r l hr
+
+section legendre
+variable {F : Type} [Field F]
+
+/-- **T1.3** `associated_legendre.evaluate` returns exact zeros for `l < m`, for every `n_m`, `n_l`,
+ node list and square-root function -/
+theorem evaluate_zero_of_lt (sqrt : F → F) (nm nl : Nat) (xs : List F) (m j l : Nat) (h : l < m) :
+    ent3 (Legendre.evaluate sqrt nm nl xs) m j l = 0 :=
+  Legendre.ent3_evaluate_of_lt sqrt nm nl xs m j l h
+
+/-- **T1.3 (synthesis, real layout)** with the tables built by `evaluate`, two spectral fields that
+ agree on the triangle `|m| ≤ l` (row `r` has `|m| = (r+1)/2`) have the same nodal values: entries
+ outside the triangular truncation never influence the result.  Any `f`, `w`, any sizes. -/
+theorem synth_ignores_outside_triangle (sqrt : F → F) (M L : Nat) (xs : List F) (f : List (List F))
+    (w : List F) (N R J : Nat)
+    (hb : Shaped ⟨f, realTables (Legendre.evaluate sqrt M L xs), w⟩ N R J L)
+    (x x' : List (List F)) (hx : ∀ row ∈ x, row.length ≤ L) (hx' : ∀ row ∈ x', row.length ≤ L)
+    (hag : ∀ r l, (r + 1) / 2 ≤ l → ent2 x r l = ent2 x' r l) (i j : Nat) :
+    ent2 (realSynth ⟨f, realTables (Legendre.evaluate sqrt M L xs), w⟩ J x) i j
+      = ent2 (realSynth ⟨f, realTables (Legendre.evaluate sqrt M L xs), w⟩ J x') i j :=
+  ent2_realSynth_congr _ N R J L hb (fun r => (r + 1) / 2)
+    (fun r j l h => realTables_zero sqrt M L xs r j l h) x x' hx hx' hag i j
+
+/-- **T1.3 (analysis, real layout)** coefficients outside the triangle never appear -/
+theorem analysis_zero_outside_triangle (sqrt : F → F) (M L : Nat) (xs : List F) (f : List (List F))
+    (w : List F) (N R J : Nat)
+    (hb : Shaped ⟨f, realTables (Legendre.evaluate sqrt M L xs), w⟩ N R J L)
+    (z : List (List F)) (hzr : ∀ zi ∈ z, zi.length = J) (hzl : z.length ≤ N) (r l : Nat) (hr : r < R)
+    (hl : l < (r + 1) / 2) :
+    ent2 (realAnalysis ⟨f, realTables (Legendre.evaluate sqrt M L xs), w⟩ R J L z) r l = 0 :=
+  ent2_realAnalysis_zero _ N R J L hb (fun r => (r + 1) / 2)
+    (fun r j l h => realTables_zero sqrt M L xs r j l h) z hzr hzl r l hr hl
+
+/-- **T1.3 (fast layout)** row `r` has `|m| = r/2`; `p` is stored once per `|m|` -/
+theorem fast_synth_ignores_outside_triangle (sqrt : F → F) (M L : Nat) (xs : List F)
+    (f : List (List F)) (w : List F) (N R J : Nat)
+    (hb : Shaped (fastBasis ⟨f, Legendre.evaluate sqrt M L xs, w⟩) N R J L)
+    (x x' : List (List F)) (hxl : x.length % 2 = 0) (hxl' : x'.length % 2 = 0)
+    (hx : ∀ row ∈ x, row.length ≤ L) (hx' : ∀ row ∈ x', row.length ≤ L)
+    (hag : ∀ r l, r / 2 ≤ l → ent2 x r l = ent2 x' r l) (i j : Nat) :
+    ent2 (fastSynth ⟨f, Legendre.evaluate sqrt M L xs, w⟩ J x) i j
+      = ent2 (fastSynth ⟨f, Legendre.evaluate sqrt M L xs, w⟩ J x') i j := by
+  rw [fastSynth_eq_real _ _ _ hxl, fastSynth_eq_real _ _ _ hxl']
+  exact ent2_realSynth_congr _ N R J L hb (fun r => r / 2)
+    (fun r j l h => fastTables_zero sqrt M L xs r j l h) x x' hx hx' hag i j
+
+theorem fast_analysis_zero_outside_triangle (sqrt : F → F) (M L : Nat) (xs : List F)
+    (f : List (List F)) (w : List F) (N R J : Nat)
+    (hb : Shaped (fastBasis ⟨f, Legendre.evaluate sqrt M L xs, w⟩) N R J L) (hR : R % 2 = 0)
+    (z : List (List F)) (hzr : ∀ zi ∈ z, zi.length = J) (hzl : z.length ≤ N) (r l : Nat) (hr : r < R)
+    (hl : l < r / 2) :
+    ent2 (fastAnalysis ⟨f, Legendre.evaluate sqrt M L xs, w⟩ R J L z) r l = 0 := by
+  rw [fastAnalysis_eq_real _ _ _ _ _ hR]
+  exact ent2_realAnalysis_zero _ N R J L hb (fun r => r / 2)
+    (fun r j l h => fastTables_zero sqrt M L xs r j l h) z hzr hzl r l hr hl
+
+/-- **T1.6 (prefix stability)** raising the truncation `n_l` only appends entries -/
+theorem legendre_prefix (sqrt : F → F) (nl nl' : Nat) (x : F) (m : Nat) (h : nl ≤ nl') :
+    (Legendre.row sqrt nl' x m).take nl = Legendre.row sqrt nl x m :=
+  Legendre.take_row sqrt nl nl' x m h
+
+theorem evaluate_prefix (sqrt : F → F) (nm nl nl' : Nat) (xs : List F) (h : nl ≤ nl') :
+    (Legendre.evaluate sqrt nm nl' xs).map (fun pm => pm.map fun pj => pj.take nl)
+      = Legendre.evaluate sqrt nm nl xs :=
+  Legendre.take_evaluate_rows sqrt nm nl nl' xs h
+
+theorem evaluate_prefix_orders (sqrt : F → F) (nm nm' nl : Nat) (xs : List F) (h : nm ≤ nm') :
+    (Legendre.evaluate sqrt nm' nl xs).take nm = Legendre.evaluate sqrt nm nl xs :=
+  Legendre.take_evaluate_orders sqrt nm nm' nl xs h
+
+/-- **T1.6 (parity)** `P^m_l(-x) = (-1)^(l+m)·P^m_l(x)` for the computed tables, every size -/
+theorem legendre_parity (sqrt : F → F) (nl : Nat) (x : F) (m l : Nat) :
+    ent (Legendre.row sqrt nl (-x) m) l = (-1) ^ (l + m) * ent (Legendre.row sqrt nl x m) l :=
+  Legendre.ent_row_neg sqrt nl x m l
+
+end legendre
+
+/-- **T1.4** `Grid.integrate (inverse_transform x) = r²·Σ (∫Y_{r,l})·x[r][l]` for every basis of
+ consistent shape, every radius and every spectral field -/
+theorem integrate_synth {K : Type} [CommRing K] (b : Basis K) (N R J L : Nat) (hb : Shaped b N R J L)
+    (r2 : K) (x : List (List K)) (hx : ∀ row ∈ x, row.length ≤ L) :
+    integrate b.w r2 (realSynth b J x)
+      = r2 * ∑ r ∈ range R, ∑ l ∈ range L, colInt b N J r l * ent2 x r l :=
+  integrate_realSynth b N R J L hb r2 x hx
+
+/-- **T1.4, certificate form.**  With `b₀` the constant `(0,0)` basis function of the grid:
+ `|b₀·∫synth(x) − r²·x₀₀| ≤ |r²|·2^-k·‖x‖₁` for every field supported on the resolved block. -/
+theorem integral_of_icert (c : ICert) (mask : List (List Bool)) (k : Nat)
+    (hs : c.shapeOk = true) (hc : c.colIntOk mask k = true) (hR : 0 < c.R) (hL : 0 < c.L) (r2 : ℚ)
+    (x : List (List ℚ)) (hx : ∀ row ∈ x, row.length ≤ c.L)
+    (hsupp : ∀ r' l', (mask.getD r' []).getD l' false ≠ true → ent2 x r' l' = 0) :
+    |c.b0q * integrate c.ratBasis.w r2 (realSynth c.ratBasis c.J x) - r2 * ent2 x 0 0|
+      ≤ |r2| * (1 / 2 ^ k * ∑ r' ∈ range c.R, ∑ l' ∈ range c.L, |ent2 x r' l'|) := by
+  rw [integrate_realSynth c.ratBasis c.N c.R c.J c.L c.ratBasis_shaped r2 x hx]
+  have hx00 : ent2 x 0 0
+      = ∑ r ∈ range c.R, ∑ l ∈ range c.L, (if r = 0 ∧ l = 0 then (1 : ℚ) else 0) * ent2 x r l := by
+    rw [Finset.sum_eq_single 0]
+    · rw [Finset.sum_eq_single 0]
+      · simp
+      · intro l' _ hne; simp [hne]
+      · intro h; exact absurd (Finset.mem_range.2 hL) h
+    · intro r' _ hne
+      apply Finset.sum_eq_zero; intro l' _; simp [hne]
+    · intro h; exact absurd (Finset.mem_range.2 hR) h
+  have hrew : c.b0q * (r2 * ∑ r ∈ range c.R, ∑ l ∈ range c.L, colInt c.ratBasis c.N c.J r l * ent2 x r l)
+      - r2 * ent2 x 0 0
+      = r2 * ∑ r ∈ range c.R, ∑ l ∈ range c.L,
+          (c.b0q * colInt c.ratBasis c.N c.J r l - (if r = 0 ∧ l = 0 then 1 else 0)) * ent2 x r l := by
+    rw [hx00]
+    simp only [Finset.mul_sum, ← Finset.sum_sub_distrib]
+    apply Finset.sum_congr rfl; intro r _
+    apply Finset.sum_congr rfl; intro l _
+    ring
+  rw [hrew, abs_mul]
+  apply mul_le_mul_of_nonneg_left _ (abs_nonneg _)
+  rw [Finset.mul_sum]
+  refine le_trans (Finset.abs_sum_le_sum_abs _ _) (Finset.sum_le_sum ?_)
+  intro r hr
+  rw [Finset.mul_sum]
+  refine le_trans (Finset.abs_sum_le_sum_abs _ _) (Finset.sum_le_sum ?_)
+  intro l hl
+  rw [abs_mul]
+  by_cases hm : (mask.getD r []).getD l false = true
+  · exact mul_le_mul_of_nonneg_right
+      (c.colIntOk_sound mask k hs hc r (Finset.mem_range.1 hr) l (Finset.mem_range.1 hl) hm)
+      (abs_nonneg _)
+  · rw [hsupp r l hm]; simp
+
+/-- **T1.4, the constant.**  `b₀² = 1/(4π)` to six digits: `|b₀²·4π − 1| ≤ 10⁻⁶`, so that
+ `∫synth(x) ≈ r²·√(4π)·x₀₀` (`b₀ > 0`). -/
+theorem b0_sq_four_pi (c : ICert) (h : c.b0sqOk = true) :
+    0 < c.b0q ∧ |((c.b0q : ℚ) : ℝ) ^ 2 * (4 * Real.pi) - 1| ≤ 1 / 1000000 := by
+  refine ⟨c.b0q_pos h, ?_⟩
+  obtain ⟨h1, h2⟩ := c.b0sqOk_sound h
+  have r1 : ((87496354673 : ℚ) / 2 ^ 40 : ℚ) ≤ c.b0q ^ 2 := h1
+  have q1 : (87496354673 : ℝ) / 2 ^ 40 ≤ ((c.b0q : ℚ) : ℝ) ^ 2 := by
+    have := (Rat.cast_le (K := ℝ)).2 r1
+    push_cast at this; exact this
+  have q2 : ((c.b0q : ℚ) : ℝ) ^ 2 ≤ (87496355774 : ℝ) / 2 ^ 40 := by
+    have := (Rat.cast_le (K := ℝ)).2 h2
+    push_cast at this; exact this
+  have p1 := Real.pi_gt_d6
+  have p2 := Real.pi_lt_d6
+  have hpos : (0 : ℝ) ≤ ((c.b0q : ℚ) : ℝ) ^ 2 := sq_nonneg _
+  rw [abs_le]
+  constructor
+  · have : (87496354673 : ℝ) / 2 ^ 40 * (4 * 3.141592) ≤ ((c.b0q : ℚ) : ℝ) ^ 2 * (4 * Real.pi) :=
+      mul_le_mul q1 (by linarith) (by norm_num) hpos
+    have e : (1 : ℝ) - 1 / 1000000 ≤ (87496354673 : ℝ) / 2 ^ 40 * (4 * 3.141592) := by norm_num
+    linarith
+  · have : ((c.b0q : ℚ) : ℝ) ^ 2 * (4 * Real.pi) ≤ (87496355774 : ℝ) / 2 ^ 40 * (4 * 3.141593) :=
+      mul_le_mul q2 (by linarith) (by positivity) (by norm_num)
+    have e : (87496355774 : ℝ) / 2 ^ 40 * (4 * 3.141593) ≤ 1 + 1 / 1000000 := by norm_num
+    linarith
+
+/-- **quadrature exactness, certificate form**: the latitude nodes and weights returned by scipy /
+ `_compute_weights` integrate every monomial up to the degree the spacing rule promises -/
+theorem quadrature_of_icert (c : ICert) (deg kk : Nat) (h : c.quadOk deg kk = true) (k : Nat)
+    (hk : k ≤ deg) :
+    |(∑ j ∈ range c.wl.length, ICert.sc (ent c.wl j) c.ewl * (ICert.sc (ent c.x j) c.ex) ^ k)
+        - (if k % 2 = 0 then 2 / ((k : ℚ) + 1) else 0)| ≤ 1 / 2 ^ kk :=
+  c.quadOk_sound deg kk h k hk
+
+/-! ## the generated grids (`DinoGen/SHCert.lean`, regenerated from the live code on every run)
+
+For each grid `g` of the quick family the kernel-checked certificates `g_shape`, `g_gram`,
+`g_colint`, `g_b0sq`, `g_quad` are turned into the statements about every spectral field. -/
+
+section generated
+open DinoGen.SHCert
+
+theorem roundtrip_g0 : ∀ (x : List (List ℚ)), (∀ row ∈ x, row.length ≤ g0.L) →
+    (∀ r' l', (g0_mask.getD r' []).getD l' false ≠ true → ent2 x r' l' = 0) →
+    ∀ r l, r < g0.R → l < g0.L →
+    |ent2 (realAnalysis g0.ratBasis g0.R g0.J g0.L (realSynth g0.ratBasis g0.J x)) r l - ent2 x r l|
+      ≤ 1 / 2 ^ 40 * ∑ r' ∈ range g0.R, ∑ l' ∈ range g0.L, |ent2 x r' l'| :=
+  roundtrip_of_icert g0 g0_mask 40 g0_shape g0_gram
+
+theorem integral_g0 : ∀ (r2 : ℚ) (x : List (List ℚ)), (∀ row ∈ x, row.length ≤ g0.L) →
+    (∀ r' l', (g0_mask.getD r' []).getD l' false ≠ true → ent2 x r' l' = 0) →
+    |g0.b0q * integrate g0.ratBasis.w r2 (realSynth g0.ratBasis g0.J x) - r2 * ent2 x 0 0|
+      ≤ |r2| * (1 / 2 ^ 40 * ∑ r' ∈ range g0.R, ∑ l' ∈ range g0.L, |ent2 x r' l'|) :=
+  integral_of_icert g0 g0_mask 40 g0_shape g0_colint (by decide) (by decide)
+
+theorem b0_g0 : 0 < g0.b0q ∧ |((g0.b0q : ℚ) : ℝ) ^ 2 * (4 * Real.pi) - 1| ≤ 1 / 1000000 :=
+  b0_sq_four_pi g0 g0_b0sq
+
+theorem roundtrip_g1 : ∀ (x : List (List ℚ)), (∀ row ∈ x, row.length ≤ g1.L) →
+    (∀ r' l', (g1_mask.getD r' []).getD l' false ≠ true → ent2 x r' l' = 0) →
+    ∀ r l, r < g1.R → l < g1.L →
+    |ent2 (realAnalysis g1.ratBasis g1.R g1.J g1.L (realSynth g1.ratBasis g1.J x)) r l - ent2 x r l|
+      ≤ 1 / 2 ^ 40 * ∑ r' ∈ range g1.R, ∑ l' ∈ range g1.L, |ent2 x r' l'| :=
+  roundtrip_of_icert g1 g1_mask 40 g1_shape g1_gram
+
+theorem integral_g1 : ∀ (r2 : ℚ) (x : List (List ℚ)), (∀ row ∈ x, row.length ≤ g1.L) →
+    (∀ r' l', (g1_mask.getD r' []).getD l' false ≠ true → ent2 x r' l' = 0) →
+    |g1.b0q * integrate g1.ratBasis.w r2 (realSynth g1.ratBasis g1.J x) - r2 * ent2 x 0 0|
+      ≤ |r2| * (1 / 2 ^ 40 * ∑ r' ∈ range g1.R, ∑ l' ∈ range g1.L, |ent2 x r' l'|) :=
+  integral_of_icert g1 g1_mask 40 g1_shape g1_colint (by decide) (by decide)
+
+theorem b0_g1 : 0 < g1.b0q ∧ |((g1.b0q : ℚ) : ℝ) ^ 2 * (4 * Real.pi) - 1| ≤ 1 / 1000000 :=
+  b0_sq_four_pi g1 g1_b0sq
+
+theorem roundtrip_g2 : ∀ (x : List (List ℚ)), (∀ row ∈ x, row.length ≤ g2.L) →
+    (∀ r' l', (g2_mask.getD r' []).getD l' false ≠ true → ent2 x r' l' = 0) →
+    ∀ r l, r < g2.R → l < g2.L →
+    |ent2 (realAnalysis g2.ratBasis g2.R g2.J g2.L (realSynth g2.ratBasis g2.J x)) r l - ent2 x r l|
+      ≤ 1 / 2 ^ 40 * ∑ r' ∈ range g2.R, ∑ l' ∈ range g2.L, |ent2 x r' l'| :=
+  roundtrip_of_icert g2 g2_mask 40 g2_shape g2_gram
+
+theorem roundtrip_fast_g2 : ∀ (x : List (List ℚ)), x.length % 2 = 0 → (∀ row ∈ x, row.length ≤ g2.L) →
+    (∀ r' l', (g2_mask.getD r' []).getD l' false ≠ true → ent2 x r' l' = 0) →
+    ∀ r l, r < g2.R → l < g2.L →
+    |ent2 (fastAnalysis g2.rawBasis g2.R g2.J g2.L (fastSynth g2.rawBasis g2.J x)) r l - ent2 x r l|
+      ≤ 1 / 2 ^ 40 * ∑ r' ∈ range g2.R, ∑ l' ∈ range g2.L, |ent2 x r' l'| :=
+  roundtrip_fast_of_icert g2 g2_mask 40 rfl (by decide) g2_shape g2_gram
+
+theorem integral_g2 : ∀ (r2 : ℚ) (x : List (List ℚ)), (∀ row ∈ x, row.length ≤ g2.L) →
+    (∀ r' l', (g2_mask.getD r' []).getD l' false ≠ true → ent2 x r' l' = 0) →
+    |g2.b0q * integrate g2.ratBasis.w r2 (realSynth g2.ratBasis g2.J x) - r2 * ent2 x 0 0|
+      ≤ |r2| * (1 / 2 ^ 40 * ∑ r' ∈ range g2.R, ∑ l' ∈ range g2.L, |ent2 x r' l'|) :=
+  integral_of_icert g2 g2_mask 40 g2_shape g2_colint (by decide) (by decide)
+
+theorem b0_g2 : 0 < g2.b0q ∧ |((g2.b0q : ℚ) : ℝ) ^ 2 * (4 * Real.pi) - 1| ≤ 1 / 1000000 :=
+  b0_sq_four_pi g2 g2_b0sq
+
+theorem roundtrip_g3 : ∀ (x : List (List ℚ)), (∀ row ∈ x, row.length ≤ g3.L) →
+    (∀ r' l', (g3_mask.getD r' []).getD l' false ≠ true → ent2 x r' l' = 0) →
+    ∀ r l, r < g3.R → l < g3.L →
+    |ent2 (realAnalysis g3.ratBasis g3.R g3.J g3.L (realSynth g3.ratBasis g3.J x)) r l - ent2 x r l|
+      ≤ 1 / 2 ^ 40 * ∑ r' ∈ range g3.R, ∑ l' ∈ range g3.L, |ent2 x r' l'| :=
+  roundtrip_of_icert g3 g3_mask 40 g3_shape g3_gram
+
+theorem roundtrip_fast_g3 : ∀ (x : List (List ℚ)), x.length % 2 = 0 → (∀ row ∈ x, row.length ≤ g3.L) →
+    (∀ r' l', (g3_mask.getD r' []).getD l' false ≠ true → ent2 x r' l' = 0) →
+    ∀ r l, r < g3.R → l < g3.L →
+    |ent2 (fastAnalysis g3.rawBasis g3.R g3.J g3.L (fastSynth g3.rawBasis g3.J x)) r l - ent2 x r l|
+      ≤ 1 / 2 ^ 40 * ∑ r' ∈ range g3.R, ∑ l' ∈ range g3.L, |ent2 x r' l'| :=
+  roundtrip_fast_of_icert g3 g3_mask 40 rfl (by decide) g3_shape g3_gram
+
+theorem integral_g3 : ∀ (r2 : ℚ) (x : List (List ℚ)), (∀ row ∈ x, row.length ≤ g3.L) →
+    (∀ r' l', (g3_mask.getD r' []).getD l' false ≠ true → ent2 x r' l' = 0) →
+    |g3.b0q * integrate g3.ratBasis.w r2 (realSynth g3.ratBasis g3.J x) - r2 * ent2 x 0 0|
+      ≤ |r2| * (1 / 2 ^ 40 * ∑ r' ∈ range g3.R, ∑ l' ∈ range g3.L, |ent2 x r' l'|) :=
+  integral_of_icert g3 g3_mask 40 g3_shape g3_colint (by decide) (by decide)
+
+theorem b0_g3 : 0 < g3.b0q ∧ |((g3.b0q : ℚ) : ℝ) ^ 2 * (4 * Real.pi) - 1| ≤ 1 / 1000000 :=
+  b0_sq_four_pi g3 g3_b0sq
+
+theorem roundtrip_g4 : ∀ (x : List (List ℚ)), (∀ row ∈ x, row.length ≤ g4.L) →
+    (∀ r' l', (g4_mask.getD r' []).getD l' false ≠ true → ent2 x r' l' = 0) →
+    ∀ r l, r < g4.R → l < g4.L →
+    |ent2 (realAnalysis g4.ratBasis g4.R g4.J g4.L (realSynth g4.ratBasis g4.J x)) r l - ent2 x r l|
+      ≤ 1 / 2 ^ 40 * ∑ r' ∈ range g4.R, ∑ l' ∈ range g4.L, |ent2 x r' l'| :=
+  roundtrip_of_icert g4 g4_mask 40 g4_shape g4_gram
+
+theorem integral_g4 : ∀ (r2 : ℚ) (x : List (List ℚ)), (∀ row ∈ x, row.length ≤ g4.L) →
+    (∀ r' l', (g4_mask.getD r' []).getD l' false ≠ true → ent2 x r' l' = 0) →
+    |g4.b0q * integrate g4.ratBasis.w r2 (realSynth g4.ratBasis g4.J x) - r2 * ent2 x 0 0|
+      ≤ |r2| * (1 / 2 ^ 40 * ∑ r' ∈ range g4.R, ∑ l' ∈ range g4.L, |ent2 x r' l'|) :=
+  integral_of_icert g4 g4_mask 40 g4_shape g4_colint (by decide) (by decide)
+
+theorem b0_g4 : 0 < g4.b0q ∧ |((g4.b0q : ℚ) : ℝ) ^ 2 * (4 * Real.pi) - 1| ≤ 1 / 1000000 :=
+  b0_sq_four_pi g4 g4_b0sq
+
+theorem roundtrip_g5 : ∀ (x : List (List ℚ)), (∀ row ∈ x, row.length ≤ g5.L) →
+    (∀ r' l', (g5_mask.getD r' []).getD l' false ≠ true → ent2 x r' l' = 0) →
+    ∀ r l, r < g5.R → l < g5.L →
+    |ent2 (realAnalysis g5.ratBasis g5.R g5.J g5.L (realSynth g5.ratBasis g5.J x)) r l - ent2 x r l|
+      ≤ 1 / 2 ^ 40 * ∑ r' ∈ range g5.R, ∑ l' ∈ range g5.L, |ent2 x r' l'| :=
+  roundtrip_of_icert g5 g5_mask 40 g5_shape g5_gram
+
+theorem integral_g5 : ∀ (r2 : ℚ) (x : List (List ℚ)), (∀ row ∈ x, row.length ≤ g5.L) →
+    (∀ r' l', (g5_mask.getD r' []).getD l' false ≠ true → ent2 x r' l' = 0) →
+    |g5.b0q * integrate g5.ratBasis.w r2 (realSynth g5.ratBasis g5.J x) - r2 * ent2 x 0 0|
+      ≤ |r2| * (1 / 2 ^ 40 * ∑ r' ∈ range g5.R, ∑ l' ∈ range g5.L, |ent2 x r' l'|) :=
+  integral_of_icert g5 g5_mask 40 g5_shape g5_colint (by decide) (by decide)
+
+theorem b0_g5 : 0 < g5.b0q ∧ |((g5.b0q : ℚ) : ℝ) ^ 2 * (4 * Real.pi) - 1| ≤ 1 / 1000000 :=
+  b0_sq_four_pi g5 g5_b0sq
+
+theorem roundtrip_g6 : ∀ (x : List (List ℚ)), (∀ row ∈ x, row.length ≤ g6.L) →
+    (∀ r' l', (g6_mask.getD r' []).getD l' false ≠ true → ent2 x r' l' = 0) →
+    ∀ r l, r < g6.R → l < g6.L →
+    |ent2 (realAnalysis g6.ratBasis g6.R g6.J g6.L (realSynth g6.ratBasis g6.J x)) r l - ent2 x r l|
+      ≤ 1 / 2 ^ 40 * ∑ r' ∈ range g6.R, ∑ l' ∈ range g6.L, |ent2 x r' l'| :=
+  roundtrip_of_icert g6 g6_mask 40 g6_shape g6_gram
+
+theorem integral_g6 : ∀ (r2 : ℚ) (x : List (List ℚ)), (∀ row ∈ x, row.length ≤ g6.L) →
+    (∀ r' l', (g6_mask.getD r' []).getD l' false ≠ true → ent2 x r' l' = 0) →
+    |g6.b0q * integrate g6.ratBasis.w r2 (realSynth g6.ratBasis g6.J x) - r2 * ent2 x 0 0|
+      ≤ |r2| * (1 / 2 ^ 40 * ∑ r' ∈ range g6.R, ∑ l' ∈ range g6.L, |ent2 x r' l'|) :=
+  integral_of_icert g6 g6_mask 40 g6_shape g6_colint (by decide) (by decide)
+
+theorem b0_g6 : 0 < g6.b0q ∧ |((g6.b0q : ℚ) : ℝ) ^ 2 * (4 * Real.pi) - 1| ≤ 1 / 1000000 :=
+  b0_sq_four_pi g6 g6_b0sq
+
+theorem roundtrip_g7 : ∀ (x : List (List ℚ)), (∀ row ∈ x, row.length ≤ g7.L) →
+    (∀ r' l', (g7_mask.getD r' []).getD l' false ≠ true → ent2 x r' l' = 0) →
+    ∀ r l, r < g7.R → l < g7.L →
+    |ent2 (realAnalysis g7.ratBasis g7.R g7.J g7.L (realSynth g7.ratBasis g7.J x)) r l - ent2 x r l|
+      ≤ 1 / 2 ^ 40 * ∑ r' ∈ range g7.R, ∑ l' ∈ range g7.L, |ent2 x r' l'| :=
+  roundtrip_of_icert g7 g7_mask 40 g7_shape g7_gram
+
+theorem roundtrip_fast_g7 : ∀ (x : List (List ℚ)), x.length % 2 = 0 → (∀ row ∈ x, row.length ≤ g7.L) →
+    (∀ r' l', (g7_mask.getD r' []).getD l' false ≠ true → ent2 x r' l' = 0) →
+    ∀ r l, r < g7.R → l < g7.L →
+    |ent2 (fastAnalysis g7.rawBasis g7.R g7.J g7.L (fastSynth g7.rawBasis g7.J x)) r l - ent2 x r l|
+      ≤ 1 / 2 ^ 40 * ∑ r' ∈ range g7.R, ∑ l' ∈ range g7.L, |ent2 x r' l'| :=
+  roundtrip_fast_of_icert g7 g7_mask 40 rfl (by decide) g7_shape g7_gram
+
+theorem integral_g7 : ∀ (r2 : ℚ) (x : List (List ℚ)), (∀ row ∈ x, row.length ≤ g7.L) →
+    (∀ r' l', (g7_mask.getD r' []).getD l' false ≠ true → ent2 x r' l' = 0) →
+    |g7.b0q * integrate g7.ratBasis.w r2 (realSynth g7.ratBasis g7.J x) - r2 * ent2 x 0 0|
+      ≤ |r2| * (1 / 2 ^ 40 * ∑ r' ∈ range g7.R, ∑ l' ∈ range g7.L, |ent2 x r' l'|) :=
+  integral_of_icert g7 g7_mask 40 g7_shape g7_colint (by decide) (by decide)
+
+theorem b0_g7 : 0 < g7.b0q ∧ |((g7.b0q : ℚ) : ℝ) ^ 2 * (4 * Real.pi) - 1| ≤ 1 / 1000000 :=
+  b0_sq_four_pi g7 g7_b0sq
+
+/-- the `Fx`-literal form of the same certificate (grid `g0`), through `roundtrip_of_cert` -/
+theorem roundtrip_g0_fx : ∀ (x : List (List ℚ)), (∀ row ∈ x, row.length ≤ 3) →
+    (∀ r' l', (g0_mask.getD r' []).getD l' false ≠ true → ent2 x r' l' = 0) →
+    ∀ r l, r < 3 → l < 3 →
+    |ent2 (realAnalysis (mapB g0_fx) 3 3 3 (realSynth (mapB g0_fx) 3 x)) r l - ent2 x r l|
+      ≤ Fx.val ⟨1, 40⟩ * ∑ r' ∈ range 3, ∑ l' ∈ range 3, |ent2 x r' l'| :=
+  roundtrip_of_cert g0_fx g0_mask 5 3 3 3 ⟨1, 40⟩
+    (by constructor <;> simp [mapB, g0_fx]) g0_fx_gram
+
+/-! ### non-vacuity -/
+
+/-- the resolved blocks are not empty, and differ from the full triangle where the rule says so -/
+example : (g1_mask.getD 6 []).getD 4 false = true := by decide
+example : (g6_mask.getD 0 []).getD 4 false = false := by decide   -- l' = 4 not resolved by 4 Gauss nodes
+example : (g6_mask.getD 6 []).getD 3 false = true := by decide
+example : (g7_mask.getD 4 []).getD 3 false = false := by decide   -- 6 equiangular nodes: only l' ≤ 2
+example : (g3_mask.getD 1 []).getD 0 false = false := by decide   -- the `-0` row carries no coefficient
+
+/-- a concrete non-trivial field satisfying the hypotheses of `roundtrip_g1` -/
+example : ∀ r l, r < g1.R → l < g1.L →
+    |ent2 (realAnalysis g1.ratBasis g1.R g1.J g1.L (realSynth g1.ratBasis g1.J [[2, 0, 1], [0, -3]])) r l
+        - ent2 [[2, 0, 1], [0, -3]] r l|
+      ≤ 1 / 2 ^ 40 * ∑ r' ∈ range g1.R, ∑ l' ∈ range g1.L, |ent2 ([[2, 0, 1], [0, -3]] : List (List ℚ)) r' l'| := by
+  apply roundtrip_g1
+  · decide
+  · intro r' l' h
+    match r', l' with
+    | 0, 0 => exact absurd (by decide) h
+    | 0, 1 => rfl
+    | 0, 2 => exact absurd (by decide) h
+    | 0, l' + 3 => simp [ent2]
+    | 1, 0 => rfl
+    | 1, 1 => exact absurd (by decide) h
+    | 1, l' + 2 => simp [ent2]
+    | r' + 2, _ => simp [ent2]
+
+end generated
 
 end Dino.C01
